@@ -33,7 +33,7 @@ var Profiles = map[string]func() Profile{
 		p := base()
 		p.Name = "churn"
 		p.W = wts(int(KNewEntity), 30, int(KNewBatch), 8, int(KCopy), 8, int(KRemoveEntity), 34, int(KRemoveEntities), 6, int(KAdd), 4, int(KRemove), 2,
-			int(KReset), 1, int(KShrink), 1, int(KSetRel), 6, int(KSetRelBatch), 2, int(KExchange), 2)
+			int(KReset), 1, int(KShrink), 1, int(KSetRel), 6, int(KSetRelBatch), 2, int(KExchange), 2, int(KRemoveBatch), 3, int(KExchangeBatch), 2, int(KAddBatch), 2)
 		p.MaxAlive = 24
 		p.MaxComps = 2
 		p.RelPct = 20
